@@ -90,6 +90,20 @@ Deterministic == IsInitial =>
 CanonIsARendering == IsInitial =>
                      C11Holds(F, RenderCanon(F)) /\ C12Holds(F, RenderCanon(F))
 
+\* the report VALUE by which Solstat.tla abbreviates a rendered category part is what can be read back from the
+\* canonical rendering: per reported pattern, the bag of <<file, line>>
+SR == INSTANCE SolstatRun WITH Catalogue <- <<>>, TreeOf <- <<>>, Res <- <<>>
+ReadBackPart(items) ==
+    LET rb == ReadBack(items)
+        ps == {rb[i][1] : i \in 1 .. Len(rb)}
+    IN [p \in ps |-> BagOfSeq(SelectSeq([i \in 1 .. Len(rb) |-> <<rb[i][1], <<rb[i][2], rb[i][3]>>>>], LAMBDA x : x[1] = p))]
+ValueIsReadBack == IsInitial =>
+    LET v == SR!PartOf(F)
+        r == ReadBackPart(RenderCanon(F))
+    IN /\ DOMAIN v = DOMAIN r
+       /\ \A p \in DOMAIN v : \A e \in DOMAIN v[p] : r[p][<<p, e>>] = v[p][e]
+       /\ \A p \in DOMAIN v : Cardinality(DOMAIN r[p]) = Cardinality(DOMAIN v[p])
+
 DumpBehaviour == IsInitial =>
     PrintT(<<"REPLAY", ToJson([cat |-> Cat,
                                 findings |-> [p \in DOMAIN F |-> F[p]],
